@@ -84,3 +84,135 @@ def describe_path(g, ev, path, maxlen=40):
     if len(out) > maxlen:
         out = out[:maxlen // 2] + ["..."] + out[-maxlen // 2:]
     return out
+
+
+def may_dataflow(g, init, effect):
+    """Forward may-analysis over fact sets (union join). effect(n, m, lab) -> (gens, kills)."""
+    def transfer(n, st):
+        def per_edge(m, lab):
+            gens, kills = effect(n, m, lab)
+            return frozenset((st - kills) | gens)
+        return per_edge
+    return ieg.forward(g, frozenset(init), transfer, lambda a, b: a | b)
+
+
+def zero_test(de):
+    """If a switch discriminant compares a value with 0: (value expr, verdict for case 0, verdict otherwise)
+    with verdicts in {'zero','nonzero'}."""
+    de = ir.peel(de, casts=False)
+    flip = False
+    while de[0] == 'un' and de[1] == 'Not':
+        flip = not flip
+        de = ir.peel(de[2], casts=False)
+    res = None
+    if de[0] == 'bin' and de[1] in ('Eq', 'Ne', 'Gt', 'Lt', 'Ge', 'Le'):
+        a, b = de[2], de[3]
+        ca = ir.peel(a, casts=False)
+        cb = ir.peel(b, casts=False)
+        if cb[0] == 'const' and cb[1] == 0:
+            if de[1] in ('Eq', 'Le'):
+                res = (a, 'nonzero', 'zero')
+            elif de[1] in ('Ne', 'Gt'):
+                res = (a, 'zero', 'nonzero')
+        elif ca[0] == 'const' and ca[1] == 0:
+            if de[1] in ('Eq', 'Ge'):
+                res = (b, 'nonzero', 'zero')
+            elif de[1] in ('Ne', 'Lt'):
+                res = (b, 'zero', 'nonzero')
+    if res is None:
+        return None
+    v, c0, other = res
+    if flip:
+        c0, other = other, c0
+    return v, c0, other
+
+
+def derives_from_site(e, body_path, bb):
+    """Is `e` the value produced by the call at (body, bb), modulo plumbing: payload extraction of
+    Poll/Result/ControlFlow, `?` (Try::branch), casts, moves and phi joins?"""
+    e = ir.peel(e)
+    while True:
+        if e[0] in ('field', 'variant'):
+            e = ir.peel(e[1])
+        elif e[0] == 'call' and e[1].endswith("std::ops::Try>::branch") and len(e[2]) == 1:
+            e = ir.peel(e[2][0])
+        elif e[0] == 'phi':
+            return any(derives_from_site(x, body_path, bb) for x in e[1])
+        else:
+            break
+    return e[0] == 'call' and e[3] == (body_path, bb)
+
+
+def frame_paths_to_return(g, ev, start, is_event, limit=3000):
+    """Explore forward from `start` inside start's frame (and frames inlined below it); returns
+    (events met, return nodes reached, left_frame_ok). Stops at the frame's own Return."""
+    fr = start.frame
+    seen = set()
+    work = [start]
+    events = []
+    rets = []
+    while work:
+        n = work.pop()
+        if n.key in seen:
+            continue
+        seen.add(n.key)
+        if len(seen) > limit:
+            break
+        if is_event(n):
+            events.append(n)
+            continue
+        if n.frame is fr and n.term["k"] == "return":
+            rets.append(n)
+            continue
+        for (m, lab) in g.succ.get(n.key, []):
+            work.append(m)
+    return events, rets
+
+
+def error_kind_on_path(g, start, limit=400):
+    """Names of std::io::ErrorKind variants constructed on paths from `start` to its frame's return."""
+    fr = start.frame
+    seen = set()
+    work = [start]
+    kinds = set()
+    while work:
+        n = work.pop()
+        if n.key in seen or len(seen) > limit:
+            continue
+        seen.add(n.key)
+        for st in n.stmts:
+            if st["k"] == "assign" and st["rv"]["k"] == "agg" and st["rv"].get("adt") == "std::io::ErrorKind":
+                kinds.add(st["rv"]["vn"])
+        if n.frame is fr and n.term["k"] == "return":
+            continue
+        for (m, lab) in g.succ.get(n.key, []):
+            work.append(m)
+    return kinds
+
+
+def witness_may(g, effect, target, fact, limit=100000):
+    """A path ending in `target` along which `fact` is generated and then never killed."""
+    from collections import deque
+    prev = {target.key: None}
+    dq = deque([target])
+    start = None
+    while dq and start is None:
+        n = dq.popleft()
+        for (p, lab) in g.pred.get(n.key, []):
+            gens, kills = effect(p, n, lab)
+            if fact in gens:
+                prev[p.key] = n
+                start = p
+                break
+            if fact in kills or p.key in prev:
+                continue
+            prev[p.key] = n
+            dq.append(p)
+    if start is None:
+        return []
+    path = []
+    n = start
+    while n is not None:
+        path.append(n)
+        n = prev.get(n.key)
+    return path
